@@ -165,9 +165,35 @@ def v_isinstance(obj, cls):
     return _real_isinstance(obj, cls)
 
 
+class HashToken(int):
+    """result of hash(bytes) inside the library: integer value 0 (so that real dict/set fall back to __eq__),
+    but comparing two tokens compares the hashed byte strings (hash equality <=> argument equality,
+    modulo collisions of Python's hash)."""
+
+    def __new__(cls, pre):
+        self = int.__new__(cls, 0)
+        self.pre = pre
+        return self
+
+    def __eq__(self, o):
+        if _real_isinstance(o, HashToken):
+            return self.pre == o.pre
+        return NotImplemented
+
+    def __ne__(self, o):
+        if _real_isinstance(o, HashToken):
+            return self.pre != o.pre
+        return NotImplemented
+
+    def __hash__(self):
+        return 0
+
+
 def v_hash(o):
     if _real_isinstance(o, (SymInt, SymBool)):
         raise EngineLeak("hash() of a symbolic scalar")
+    if _real_isinstance(o, (VBytes, VStr)):
+        return HashToken(o)
     return _real_hash(o)
 
 
@@ -421,8 +447,6 @@ class Lib(object):
                      'bitcoin.signmessage', 'bitcoin.signature', 'bitcoin.core._bignum',
                      'bitcoin.core.contrib.ripemd160'):
             self.load(name)
-        rip = self.modules['bitcoin.core.contrib.ripemd160'].ripemd160
-        stubs._REAL['ripemd160'] = lambda b: bytes(rip(VBytes(b))._d)
 
     def __getitem__(self, name):
         return self.modules[name]
@@ -461,6 +485,19 @@ class Lib(object):
         exec(code, m.__dict__)
         if '.' in name:
             setattr(self.modules[parent], child, m)
+        if name == 'bitcoin.core.contrib.ripemd160':
+            # symbolic inputs: uninterpreted function unless path_state['ripemd160'] == 'code' (C06 kernel harness)
+            rip = m.ripemd160
+            stubs._REAL['ripemd160'] = lambda b: bytes(rip(VBytes(b))._d)
+
+            def ripemd160(data, _rip=rip):
+                d = VBytes(data)
+                st = stubs.cur_state()
+                if d.is_concrete() or (st is not None and st.get('ripemd160') == 'code'):
+                    return _rip(d)
+                return stubs.hash_apply('ripemd160', d)
+            m.ripemd160_code = rip
+            m.ripemd160 = ripemd160
         if name == 'bitcoin.core.key' and self.key_stub:
             from . import keystub
             keystub.install(m)
